@@ -220,6 +220,10 @@ jobs:
     secrets:
       csec:
         required: «on.workflow_call.secrets.required»
+    outputs:
+      cout:
+        description: d
+        value: «on.workflow_call.outputs.value-no-job-outputs»
 jobs:
   j1:
     runs-on: ubuntu-latest
